@@ -101,9 +101,10 @@ def recognisers(prog):
                                         u = unref(x[3][a[2]])
                                         if u[0] in ("arg", "var") and len(u) > 2:
                                             nm = u[2]
+                    on_attr_path = any(x[0] == "call" and x[1]["name"].endswith("syn::attr::Attribute::path") for x in mir.walk(ct[2][0]))
                     for i in range(1, root.arg_count + 1):
                         if nm is not None and root.names.get(i) == nm:
-                            out[sp]["param_keys"].add(i)
+                            out[sp].setdefault("param_ns" if on_attr_path else "param_keys", set()).add(i)
                             for x in mir.walk(ct[2][0]):
                                 if x[0] == "downcast" and x[3] in ("Path", "NameValue", "List"):
                                     out[sp]["metas"].add(x[3])
@@ -115,7 +116,14 @@ def recognisers(prog):
                 ct = cb.call_term(t, bb=bb)
                 callee = mir.strip_generics(ct[1]["name"])
                 h = out.get(callee)
-                if h is None or not h["param_keys"]:
+                if h is None:
+                    continue
+                for k in h.get("param_ns", ()):
+                    if k - 1 < len(ct[2]):
+                        a = unref(ct[2][k - 1])
+                        if a[0] == "str":
+                            rec["ns"].add(a[1])
+                if not h["param_keys"]:
                     continue
                 for k in h["param_keys"]:
                     if k - 1 < len(ct[2]):
